@@ -432,6 +432,13 @@ def run(chk) -> None:
     except ImportError:
         pass
     check_visit_order(chk)
+    try:
+        from checks import c05e
+
+        chk.robust |= {"format-same-atoms"}
+        c05e.check_format_agreement(chk)
+    except ImportError:
+        pass
     chk.floor("positional-atom", 3)
     chk.floor("identity-arithmetic", 3)
 
